@@ -276,17 +276,26 @@ func TestCheck(t *testing.T) {
 
 	// Add grid
 	addBase := boundarySet(r.Pick(600, 4000))
-	yearsG := []int{-400, -101, -4, -1, 0, 1, 3, 100, 400}
+	yearsG := []int{-5000, -400, -101, -4, -1, 0, 1, 3, 100, 400, 5000}
 	var daysG []int
 	for d := -800; d <= 800; d += r.Pick(37, 7) {
 		daysG = append(daysG, d)
 	}
-	daysG = append(daysG, -366, -365, -31, -30, -29, -28, -1, 0, 1, 28, 29, 30, 31, 59, 60, 365, 366)
-	r.Phase(fmt.Sprintf("C: Add over %d base dates x %d year steps x months -25..25 x %d day steps", len(addBase), len(yearsG), len(daysG)), func() {
+	daysG = append(daysG, -366, -365, -31, -30, -29, -28, -1, 0, 1, 28, 29, 30, 31, 59, 60, 365, 366,
+		// beyond time.Duration's range when taken as nanoseconds (about 106,751 days), and whole 400-year cycles
+		36524, 36525, 106750, 106751, 106752, 106753, 146096, 146097, 146098, 500000, 1000000, -36525, -106751, -106752, -146097, -500000, -1000000)
+	r.Phase(fmt.Sprintf("C: Add over %d base dates x %d year steps x months -25..25 and +-{1200..120000} x %d day steps (incl. +-106752, +-146097, +-1000000)", len(addBase), len(yearsG), len(daysG)), func() {
 		r.Parallel(int64(len(addBase)), 1, func(w *vkit.W, lo, hi int64) {
 			for i := lo; i < hi; i++ {
 				for _, yy := range yearsG {
-					for mm := -25; mm <= 25; mm++ {
+					for mi := -31; mi <= 31; mi++ {
+						mm := mi
+						if mi < -25 || mi > 25 { // a few large month steps as well
+							mm = []int{1200, 4800, 11999, 12000, 12001, 120000}[(mi+62)%6]
+							if mi < 0 {
+								mm = -mm
+							}
+						}
 						for _, dd := range daysG {
 							c := Case{Kind: "add", A: addBase[i], Years: yy, Months: mm, Days: dd}
 							judge(c, w)
@@ -362,7 +371,7 @@ func TestCheck(t *testing.T) {
 					c.B = civil(c.A.ord() + int64(rapid.IntRange(-400, 400).Draw(rt, "delta")))
 				}
 			case 1:
-				c = Case{Kind: "add", A: ymd.Draw(rt, "a"), Years: rapid.IntRange(-500, 500).Draw(rt, "years"), Months: rapid.IntRange(-60, 60).Draw(rt, "months"), Days: rapid.IntRange(-2000, 2000).Draw(rt, "days")}
+				c = Case{Kind: "add", A: ymd.Draw(rt, "a"), Years: rapid.IntRange(-500, 500).Draw(rt, "years"), Months: rapid.IntRange(-60, 60).Draw(rt, "months"), Days: rapid.OneOf(rapid.IntRange(-2000, 2000), rapid.IntRange(-2000000, 2000000)).Draw(rt, "days")}
 			case 2:
 				c = Case{Kind: "adddur", A: ymd.Draw(rt, "a"), Dur: rapid.Int64Range(-int64(maxDurDays)*int64(24*time.Hour), int64(maxDurDays)*int64(24*time.Hour)).Draw(rt, "dur")}
 				if rapid.Bool().Draw(rt, "small") {
